@@ -649,10 +649,8 @@ async fn run_resp(c: &Case) -> CaseOut {
                 if !r_vary.iter().any(|v| String::from_utf8_lossy(v).to_ascii_lowercase().contains("accept-encoding")) {
                     fail("encoded response without Vary: accept-encoding".into());
                 }
-                // (a Content-Length HEADER put there by the handler stays in head.headers at this
-                // level; the h1 encoder drops it iff the size is Stream and chunking is enabled:
-                // see the wire family)
-                if r_size != BodySize::Stream || (r_cl.is_some() && !c.no_chunking) {
+                // (F29: update_head removes a Content-Length header put there by the handler)
+                if r_size != BodySize::Stream || r_cl.is_some() {
                     fail(format!("encoded response still announces a length ({r_size:?}, {r_cl:?})"));
                 }
                 if r_no_chunking {
@@ -696,13 +694,14 @@ async fn run_resp(c: &Case) -> CaseOut {
         (_, n) => format!("(SzSized {n})"),
     };
     let coq_case = format!(
-        "CResp {} {} {} {} {} {} {} {} {} {} []",
+        "CResp {} {} {} {} {} {} {} {} {} {} {} []",
         ae_term,
         coq_bool(compressible(&c.ctype)),
         c.status,
         coq_opt(&handler_ce, |s| coq_bytes(s.as_bytes())),
         coq_list(&c.vary.iter().collect::<Vec<_>>(), |s| coq_bytes(s.as_bytes())),
         coq_bool(c.no_chunking),
+        coq_opt(&(if c.no_chunking { Some(body.len().to_string()) } else { None }), |s| coq_bytes(s.as_bytes())),
         size_term,
         coq_list(&chunks, |x| coq_bchunk(x)),
         coq_list(&takes, |x| coq_tok(x)),
@@ -719,7 +718,7 @@ async fn run_resp(c: &Case) -> CaseOut {
         V::T(
             "resp",
             vec![
-                V::T("head", vec![V::n(r_status), V::opt(r_ce.as_ref(), V::h), V::L(r_vary.iter().map(V::h).collect()), V::b(r_no_chunking)]),
+                V::T("head", vec![V::n(r_status), V::opt(r_ce.as_ref(), V::h), V::L(r_vary.iter().map(V::h).collect()), V::b(r_no_chunking), V::opt(r_cl.as_ref(), V::h)]),
                 v_size,
                 V::L(got.iter().map(|g| v_tok(g)).collect()),
                 V::b(!err),
@@ -920,7 +919,6 @@ async fn run_wire(c: &Case) -> CaseOut {
         impl_show: show,
         oracle_ok: why.is_empty(),
         oracle_why: why,
-        known_class: stale_length_class(c),
         nontrivial: !label.is_empty(),
         tags: vec![
             "kind:wire".into(),
@@ -928,6 +926,7 @@ async fn run_wire(c: &Case) -> CaseOut {
             format!("request:{}", if c.req_mode.is_empty() { "plain" } else { &c.req_mode }),
             format!("coding:{}", if label.is_empty() { "none" } else { &label }),
             format!("announced-length:{}", c.no_chunking),
+            format!("announced+encoded (F29 family):{}", c.no_chunking && will_encode(c)),
             format!("body:{}", c.body_type),
             format!("sched:{}", if c.pend { "pending" } else { "ready" }),
         ],
@@ -1039,12 +1038,12 @@ async fn run_h2(c: &Case) -> CaseOut {
         impl_show: show,
         oracle_ok: why.is_empty(),
         oracle_why: why,
-        known_class: stale_length_class(c),
         nontrivial: !label.is_empty(),
         tags: vec![
             "kind:h2".into(),
             format!("coding:{}", if label.is_empty() { "none" } else { &label }),
             format!("announced-length:{}", c.no_chunking),
+            format!("announced+encoded (F29 family):{}", c.no_chunking && will_encode(c)),
             format!("body:{}", c.body_type),
         ],
         ..Default::default()
@@ -1064,17 +1063,6 @@ fn will_encode(c: &Case) -> bool {
         && !matches!(c.status, 101 | 204 | 206)
         && c.body_type != "none"
         && (c.body_type == "stream" || c.body.len > 0)
-}
-/// classes of the known finding "handler-announced length survives compression" (predicates on the case)
-fn stale_length_class(c: &Case) -> String {
-    if !(c.no_chunking && will_encode(c)) {
-        return String::new();
-    }
-    match (c.kind.as_str(), c.req_mode.as_str()) {
-        ("h2", _) => "stale-length-h2".into(),
-        ("wire", "upgrade") | ("wire", "connect") => "stale-length-h1-stream-request".into(),
-        _ => String::new(),
-    }
 }
 
 // --------------------------------------------------------------------------------------- dec case
